@@ -254,6 +254,14 @@ def cfg_rule(ctx: Ctx) -> None:
                  fold_in(m, st.module, c.args[2]), fold_in(m, st.module, c.args[3], extra={"address_length": Val(alen)})]
         except (Unknown, IndexError) as exc:
             raise AnalysisError(f"R18.cfg: Memory(..) arguments do not fold: {exc}")
+        lo = c.args[3].args[0] if isinstance(c.args[3], ast.Call) and c.args[3].args else None
+        lo_ok = lo is not None and " ".join(ast.unparse(lo).split()) == "Settings().get()['memory_address_min_bytes']"
+        al = next((n.value for n in walk_no_nested(st.node) if isinstance(n, (ast.Assign, ast.AnnAssign))
+                   and ast.unparse(n.targets[0] if isinstance(n, ast.Assign) else n.target) == "address_length"), None)
+        lo_ok = lo_ok and al is not None and " ".join(ast.unparse(al).split()) == "Settings().get()['memory_address_length']"
+        if not lo_ok:
+            r.viol(f"riscv-memory-{i}|settings-keys", st.loc(c), "the data memory's bounds are not taken from the settings "
+                   "memory_address_min_bytes / memory_address_length (they only coincide with other settings by default)")
         ok = a == ["AddressingType.BYTE", 32, True, range(2 ** 14, 2 ** 32)]
         r.check(ok, f"riscv-memory-{i}", st.loc(c), f"RISC-V data memory is configured as {a}; documented: byte cells, 32-bit addresses, "
                 "wrap-around on, valid range [2^14, 2^32)")
